@@ -103,7 +103,7 @@ func defaults(c *Config) {
 		c.MaxAlloc = 1 << 22
 	}
 	if c.SymIdxMax == 0 {
-		c.SymIdxMax = 64
+		c.SymIdxMax = 256
 	}
 	if c.Workers == 0 {
 		c.Workers = 16
